@@ -88,7 +88,7 @@ package httpscenario
 // One step: preprocess, render, send, postprocess in the listed order; a failure anywhere ends the step with an error and
 // without a sample (the caller reports it); success reports exactly one sample carrying the status received.
 //@ func (g *ScenarioGun) shootStep
-//@ props C10 C15 C19 C11
+//@ props C10 C15 C19 C11 C06 C03
 //@ nilsafe
 //@ requires g.base != nil && g.base.Aggregator != nil && g.base.Client != nil && sample != nil && wfRequest(step) && requestVars != nil
 //@ modifies ev(report), ev(closer_close), sample.tags, sample.err, sample.fields, elems(requestVars)
@@ -112,7 +112,7 @@ package httpscenario
 
 // A shot: the steps in the listed order, one sample per executed step tagged <scenario>.<step>, stop at the first failure.
 //@ func (g *ScenarioGun) shoot
-//@ props C10 C15 C19
+//@ props C10 C15 C19 C06
 //@ nilsafe
 //@ requires wfScenario(ammo) && g.base != nil && g.base.Aggregator != nil && g.base.Client != nil
 //@ modifies ev(report), ev(closer_close), elems(templateVars)
